@@ -34,7 +34,6 @@
 # ANY WAY OUT OF THE USE OF THIS SOFTWARE, EVEN IF ADVISED OF THE
 # POSSIBILITY OF SUCH DAMAGE.
 
-import itertools
 import sys
 import warnings
 from typing import Optional, Type, Union
@@ -900,15 +899,15 @@ class DynamicalMatrixGL(DynamicalMatrixNAC):
         return np.array(G_vec_list[G_norm2 < G_cutoff**2], dtype="double", order="C")
 
     def _get_minimum_g_rad(self, G_cutoff: float, g_rad: int) -> int:
-        """Return minimum g_rad."""
-        for _g_rad in range(g_rad, 0, -1):
-            for a, b, c in itertools.product((-1, 0, 1), repeat=3):
-                if (a, b, c) == (0, 0, 0):
-                    continue
-                norm = np.linalg.norm(self._rec_lat @ [a, b, c]) * _g_rad
-                if norm < G_cutoff:
-                    return _g_rad + 1
-        return g_rad
+        """Return minimum g_rad.
+
+        A reciprocal lattice point G = n1 b1 + n2 b2 + n3 b3 has
+        n_i = a_i . G, hence |n_i| <= |a_i| |G|. This bound holds for any
+        choice of basis vectors (the primitive cell may not be reduced).
+
+        """
+        lengths = np.linalg.norm(self._pcell.cell, axis=1)
+        return min(int(np.ceil(G_cutoff * lengths.max())) + 1, max(g_rad, 1))
 
     def _get_G_vec_list(self, g_rad: int):
         """Return reciprocal lattice point vectors withing g_rad cutoff.
